@@ -136,6 +136,13 @@ func TestVerifC07Amf0(t *testing.T) {
 	}
 	decs := []*vC07Dec{
 		{name: "amf0.any", gen: vC07AmfGen, run: full},
+		{name: "amf0.decode", modelled: true, gen: vC07AmfGen, run: func(b []byte) bool {
+			a, err := Discovery(b)
+			if err != nil {
+				return true
+			}
+			return a.UnmarshalBinary(b) != nil
+		}},
 		one("amf0.Number", func() Amf0 { return NewNumber(0) }),
 		one("amf0.Boolean", func() Amf0 { return NewBoolean(false) }),
 		one("amf0.String", func() Amf0 { return NewString("") }),
@@ -186,5 +193,5 @@ func TestVerifC07Amf0(t *testing.T) {
 			return append(out, make([]byte, n-3)...)
 		}},
 	}
-	vC07Drive(t, decs, helpers, fams, 400, 40000)
+	vC07Drive(t, decs, helpers, fams, 400, 5000)
 }
